@@ -2,12 +2,19 @@
     graphql.Schema, what introspection.ComputeSchemaJSON printed, and PrepareQuery's verdict on each
     generated query. *)
 From Coq Require Import List ZArith String Bool Arith.
-From Thunder Require Import Lib.Json GqlTyping.Types GqlTyping.Parse GqlTyping.Typing.
+From Thunder Require Import Lib.Json GqlTyping.Types GqlTyping.Parse GqlTyping.Typing GqlTyping.Introspect GqlTyping.Conformb.
 Import ListNotations.
 Open Scope string_scope.
 Open Scope list_scope.
 
-Record case14 := mk14 { c_sch : schema; c_isch : schema; c_queries : list (gdoc * nat) }.
+(** [c_x]: the built schema with everything introspection prints, Go map entries in shuffled order;
+    [c_types]: `__schema.types` of introspection.ComputeSchemaJSON, as printed; [c_resps]: the validated
+    queries that were executed, with the response the executor returned (`__key` entries dropped);
+    [c_scalars]: the `scalars` table of schemabuilder/build.go as go/ast reads it from the tree under test
+    (Go type expression, scalar name). *)
+Record case14 := mk14 { c_sch : schema; c_isch : schema; c_queries : list (gdoc * nat);
+                        c_x : xschema; c_types : json; c_resps : list (gdoc * json);
+                        c_scalars : list (string * string) }.
 
 (** The verdict only (0 accepted, 1 client error, 99 crash), never the wording of the error. *)
 Definition verdict_code {A} (r : res A) : nat :=
@@ -36,11 +43,56 @@ Definition same_advertised (walked printed : schema) : bool :=
   schema_eqb (filter non_scalar (advertised walked)) (filter non_scalar printed) &&
   forallb (fun n => mem n (scalar_names printed)) (scalar_names walked).
 
+(** Components of the introspection model: 7 the model's rendering of the built schema differs from the
+    printed `types`; 8 the model's reader cannot read the printed `types`, or reads something else than
+    the harness's own reader did; 9 the two walks of the built schema disagree; 10 a response does not
+    conform (model's [rconformsb]) to the schema read from the printed JSON; 11 the scalar table of
+    build.go differs from the model's; 13 the built schema is outside [xwf], the premise of the
+    truthfulness theorems. *)
+Definition resp_fuel : nat := 64.
+
+Definition check_resp (adv : schema) (qr : gdoc * json) : list nat :=
+  let '(doc, resp) := qr in
+  match convert cur doc [] with
+  | ROk (q, _) =>
+      if rconformsb adv (q_frags q) resp_fuel false (TNonNull (TNamed "Query")) (Some (q_sel q)) resp then [] else [10]
+  | _ => [6]
+  end.
+
+(** Go type expression of a scalar -> JSON kind of its rendering (bool; integer and float kinds;
+    string, time.Time as RFC 3339 text, []byte as base64 text). *)
+Definition go_scalar_kind (g : string) : option jkind :=
+  if String.eqb g "bool" then Some KBool
+  else if mem g ["int"; "int8"; "int16"; "int32"; "int64"; "uint"; "uint8"; "uint16"; "uint32"; "uint64"; "float32"; "float64"] then Some KNumber
+  else if mem g ["string"; "time.Time"; "[]byte"] then Some KString
+  else None.
+
+Definition scalars_match (src : list (string * string)) : bool :=
+  Nat.eqb (List.length src) (List.length scalar_table) &&
+  forallb (fun e => match go_scalar_kind (fst e), scalar_kind (snd e) with
+                    | Some k, Some k' => match k, k' with KBool, KBool | KNumber, KNumber | KString, KString => true | _, _ => false end
+                    | _, _ => false
+                    end) src &&
+  forallb (fun e => mem (fst e) (map snd src)) scalar_table.
+
+Definition check_introspection (c : case14) : list nat :=
+  (if xwf (c_x c) then [] else [13]) ++
+  (if json_eqb (norm (introspect_types (c_x c))) (norm (c_types c)) then [] else [7]) ++
+  (if schema_eqb (filter non_scalar (erase (xnormalize (c_x c)))) (filter non_scalar (advertised (c_sch c))) then [] else [9]) ++
+  (if scalars_match (c_scalars c) then [] else [11]) ++
+  match read_types (c_types c) with
+  | None => [8]
+  | Some y =>
+      (if schema_eqb (erase y) (c_isch c) then [] else [8]) ++
+      nodup Nat.eq_dec (flat_map (check_resp (erase y)) (c_resps c))
+  end.
+
 Definition check_case14 (c : case14) : list nat :=
   (if same_advertised (c_sch c) (c_isch c) then [] else [1]) ++
   (if scalars_in_table (c_isch c) then [] else [2]) ++
   (if schema_closedb (c_sch c) then [] else [3]) ++
-  nodup Nat.eq_dec (flat_map (check_query (c_sch c)) (c_queries c)).
+  nodup Nat.eq_dec (flat_map (check_query (c_sch c)) (c_queries c)) ++
+  check_introspection c.
 
 Fixpoint mismatches_c14 (_ : nat) (cs : list (nat * case14)) : list (nat * list nat) :=
   match cs with
